@@ -9,8 +9,8 @@ CONSTANTS
   NC = 2
   MaxBody = 3
   MaxPrefix = 2
-  SkipBytes = {0, 128}
-  Variants = {0}
+  SkipBytes = {0, 1, 128}
+  Variants = {0, 1, 2, 3}
   DimVals = {0, 3}
   MaxW = 2
   MaxH = 1
